@@ -674,6 +674,7 @@ class Func(Entry):
             rec["xi"] = np.array(xi, dtype="f8", copy=True)
             y = np.array(f0(xi), dtype="f8")
             rec["ys"] = y.copy()
+            rec["y_obj"], rec["xi_obj"] = y, xi       # what the integrand returned / was given: must stay untouched
             return y
 
         def func_kw(xi, scale=None):
@@ -725,7 +726,14 @@ class Func(Entry):
                 # same range values and count with another integrand; same integrand object with another range
                 call(lambda xi: np.cos(xi) + 2.0, make_range(x1, x2, xform), n)
                 ig.QGauss(n).integrate_func([x1 - 1.0, x2 + 2.0], lambda xi: np.array(f0(xi), dtype="f8"))
-            res = call(f, make_range(x1, x2, xform), n)
+            rng_obj = make_range(x1, x2, xform)
+            rng_before = repr(rng_obj)
+            res = call(f, rng_obj, n)
+            if repr(rng_obj) != rng_before:
+                raise RuntimeError("the integrator modified the range it was given")
+            if observed and (not np.array_equal(rec["y_obj"], rec["ys"], equal_nan=True)
+                             or not np.array_equal(np.asarray(rec["xi_obj"], dtype="f8"), rec["xi"], equal_nan=True)):
+                raise RuntimeError("the integrator modified the array the integrand returned (or was given)")
             if not observed:
                 # what the callable was given cannot be recorded: record it on a twin run with a plain
                 # function of the same mathematics and the plain range (the model then has to reproduce
@@ -1500,7 +1508,13 @@ def translation_step(ctx):
                        "no_longer_checks": "T-gen tie of C17/Model.v (statements of cgauleg_pywrap.c / integrate/util.py / stat.interplin)"},
                       found_input=False)
         return
-    ctx.obligation("translator reads the anchored sources (fail-closed)", True)
+    # a section of the sources outside the translated subset fails closed ON ITS OWN: it is reported as a broken tie,
+    # the other sections' ties are still checked, and the differential run below is never gated on any of this
+    ctx.obligation("translator reads the anchored sources (fail-closed)", not tr.ERRORS, "; ".join("%s: %s" % e for e in tr.ERRORS)[:600])
+    for sec, msg in tr.ERRORS:
+        ctx.violation("translator failed (fail-closed) on %s: %s" % (sec, msg),
+                      {"kind": "translation", "section": sec, "error": msg,
+                       "no_longer_checks": "T-gen tie of C17/Model.v for the source section %r" % sec}, found_input=False)
     res = core.coq_lemmas(os.path.join(ctx.work, "gen"), tr.PREAMBLE + defs, [(st, pr) for st, pr, _ in lemmas],
                           shard=len(lemmas), tag="gen")
     bad = []
